@@ -287,6 +287,9 @@ func vC04Copy[T vScalar]() {
 	kfColX := vCfgStr("op") == "apitranspose" && src.DataOrder().IsColMajor()
 	var cp *Dense
 	switch vCfgStr("op") {
+	case "tomat64":
+		vC04ToMat[T](src, want, shape)
+		return
 	case "clone":
 		cp = src.Clone().(*Dense)
 	case "materialize":
@@ -354,4 +357,59 @@ func vC04Copy[T vScalar]() {
 	if cp.SetAt(v, c...) == nil {
 		vCheckAll(src, srcWant, srcShape, "independent-src", "", false)
 	}
+}
+
+// vElemF64 is Go's conversion of a real numeric element to float64 (ok=false for the other element types).
+func vElemF64(x interface{}) (float64, bool) {
+	switch v := x.(type) {
+	case int:
+		return float64(v), true
+	case int8:
+		return float64(v), true
+	case int16:
+		return float64(v), true
+	case int32:
+		return float64(v), true
+	case int64:
+		return float64(v), true
+	case uint8:
+		return float64(v), true
+	case uint16:
+		return float64(v), true
+	case float32:
+		return float64(v), true
+	case float64:
+		return v, true
+	}
+	return 0, false
+}
+
+// vC04ToMat: ToMat64 (a copying conversion in safe mode) delivers the logical matrix, converted element by element, and
+// shares no storage with the tensor.
+func vC04ToMat[T vScalar](src *Dense, want []T, shape []int) {
+	m, err := ToMat64(src)
+	if len(shape) != 2 {
+		vAssert(err != nil, "tomat-refuses-non-matrix")
+		return
+	}
+	if _, numeric := vElemF64(want[0]); !numeric {
+		return // conversion of bool / complex / string elements is outside the statement
+	}
+	vAssert(err == nil, "tomat-ok")
+	if err != nil {
+		return
+	}
+	r, c := m.Dims()
+	vAssert(r == shape[0] && c == shape[1], "tomat-dims")
+	if r != shape[0] || c != shape[1] {
+		return
+	}
+	for i := 0; i < r; i++ {
+		for j := 0; j < c; j++ {
+			w, _ := vElemF64(want[i*c+j])
+			vAssert(vSameBits(m.At(i, j), w), "tomat-equal")
+		}
+	}
+	vAssert(!vSameBacking(m.RawMatrix().Data, src.Data()), "no-shared-backing")
+	vCheckAll(src, want, shape, "source-unchanged", "", false)
 }
